@@ -286,6 +286,20 @@ def body(c, ctx):
         ctx.fail('table_closure', f'{lab}: {len(want - gs)} controlling DOFs missing, {len(gs - want)} extra '
                  f'(filter {filt}:{pickname}; selection {what}/{c["spell"]})', filt=filt, **sig)
         return
+    # the dictionary form {key: selection}: one query per key, the same filters applied to each
+    if what == 'facets' and filt in ('none', 'skip') and pickname is not None:
+        kw = dict(skip=[pickname]) if filt == 'skip' else {}
+        import warnings
+        with warnings.catch_warnings():
+            warnings.simplefilter('ignore')
+            # (deprecated form; documented for index arrays and predicates as values)
+            dd = basis.get_dofs({'k1': np.array(sorted(sel['sel_facets'] and F), dtype=np.int32), 'k2': bf[:1]}, **kw)
+        one = set(int(x) for x in np.asarray(basis.get_dofs(bf[:1], **kw).flatten()).tolist())
+        if not isinstance(dd, dict) or set(dd) != {'k1', 'k2'}:
+            ctx.fail('dict_form', f'keys {sorted(dd) if isinstance(dd, dict) else type(dd)}', **sig)
+        elif set(int(x) for x in np.asarray(dd['k1'].flatten()).tolist()) != gs or \
+                set(int(x) for x in np.asarray(dd['k2'].flatten()).tolist()) != one:
+            ctx.fail('dict_form', f'{lab}: get_dofs({{key: selection}}, {kw}) differs from the single queries', filt=filt, **sig)
     # per-kind dictionaries agree with the flat result
     if filt != 'all':
         parts = set()
